@@ -101,6 +101,11 @@ fn main() {
                 trace::typist(&args[3], seed, runs, n, &mut w);
                 trace::pipeline(&args[3], seed, runs, n, &mut w);
                 w.flush().unwrap();
+            } else if args.len() >= 6 && args[2] == "systematic" {
+                // pkv trace systematic <component> <length> <out.ndjson>
+                let mut w = BufWriter::new(File::create(&args[5]).expect("create output"));
+                trace::systematic(&args[3], args[4].parse().expect("length"), &mut w);
+                w.flush().unwrap();
             } else if args.len() >= 6 && args[2] == "script" {
                 let txt = std::fs::read_to_string(&args[4]).expect("read scenarios");
                 let v: serde_json::Value = serde_json::from_str(&txt).expect("parse scenarios");
